@@ -247,6 +247,11 @@ impl StreamsState {
         self.pending.clear();
         self.send_streams = 0;
         self.data_sent = 0;
+        // Nothing written so far is in flight any more, and the remembered connection-level credit is
+        // void: the limit from the new transport parameters, set right after this, applies even if it
+        // is smaller.
+        self.unacked_data = 0;
+        self.max_data = 0;
         self.connection_blocked.clear();
     }
 
